@@ -295,6 +295,165 @@ Theorem gen_resample_smooth_context :
   /\ ApiGen.smooth_3d_call = ("gaussian_filter", ["self._grid"; "sigma / self._gridsize"]).
 Proof. repeat split; reflexivity. Qed.
 
+
+(* ================================================================== round 2 *)
+(* ------------------------------------------------------------------ 5. point evaluation: grid(points) *)
+(* BaseGrid2D/3D.__call__ (inherited unchanged by the Grid and Eikonal classes): the kernel's axes x, y[, z] receive the z, x[, y]
+   node axes IN THAT ORDER, v the stored grid, q the query points as float64, fval the fill value *)
+Theorem gen_call_2d_wiring :
+  ApiGen.call_2d_binding
+  = [("x", "self.zaxis"); ("y", "self.xaxis"); ("v", "self._grid"); ("q", "np.asarray(points, dtype=np.float64)");
+     ("fval", "fill_value")]
+  /\ fst ApiGen.call_2d_call = "interp2d"
+  /\ map fst ApiGen.call_2d_binding = ApiGen.interp2d_params
+  /\ map snd ApiGen.call_2d_binding = snd ApiGen.call_2d_call
+  /\ ApiGen.call_2d_params = ["points"; "fill_value=np.nan"]
+  /\ ApiGen.interp2d_defaults = [("fval", "np.nan")].
+Proof. repeat split; reflexivity. Qed.
+Theorem gen_call_3d_wiring :
+  ApiGen.call_3d_binding
+  = [("x", "self.zaxis"); ("y", "self.xaxis"); ("z", "self.yaxis"); ("v", "self._grid");
+     ("q", "np.asarray(points, dtype=np.float64)"); ("fval", "fill_value")]
+  /\ fst ApiGen.call_3d_call = "interp3d"
+  /\ map fst ApiGen.call_3d_binding = ApiGen.interp3d_params
+  /\ map snd ApiGen.call_3d_binding = snd ApiGen.call_3d_call
+  /\ ApiGen.call_3d_params = ["points"; "fill_value=np.nan"]
+  /\ ApiGen.interp3d_defaults = [("fval", "np.nan")].
+Proof. repeat split; reflexivity. Qed.
+(* TraveltimeGrid2D/3D.__call__: the same, plus the stored (ABSOLUTE) source and the slowness at the source *)
+Theorem gen_ttcall_2d_wiring :
+  ApiGen.ttcall_2d_binding
+  = [("x", "self.zaxis"); ("y", "self.xaxis"); ("v", "self._grid"); ("q", "np.asarray(points, dtype=np.float64)");
+     ("src", "self._source"); ("vzero", "self._vzero"); ("fval", "fill_value")]
+  /\ fst ApiGen.ttcall_2d_call = "vinterp2d"
+  /\ map fst ApiGen.ttcall_2d_binding = ApiGen.vinterp2d_params
+  /\ map snd ApiGen.ttcall_2d_binding = snd ApiGen.ttcall_2d_call
+  /\ ApiGen.ttcall_2d_params = ["points"; "fill_value=np.nan"]
+  /\ ApiGen.vinterp2d_defaults = [("fval", "np.nan")].
+Proof. repeat split; reflexivity. Qed.
+Theorem gen_ttcall_3d_wiring :
+  ApiGen.ttcall_3d_binding
+  = [("x", "self.zaxis"); ("y", "self.xaxis"); ("z", "self.yaxis"); ("v", "self._grid");
+     ("q", "np.asarray(points, dtype=np.float64)"); ("src", "self._source"); ("vzero", "self._vzero");
+     ("fval", "fill_value")]
+  /\ fst ApiGen.ttcall_3d_call = "vinterp3d"
+  /\ map fst ApiGen.ttcall_3d_binding = ApiGen.vinterp3d_params
+  /\ map snd ApiGen.ttcall_3d_binding = snd ApiGen.ttcall_3d_call
+  /\ ApiGen.ttcall_3d_params = ["points"; "fill_value=np.nan"]
+  /\ ApiGen.vinterp3d_defaults = [("fval", "np.nan")].
+Proof. repeat split; reflexivity. Qed.
+
+(* ------------------------------------------------------------------ 6. the gradient property *)
+(* raises ValueError when no gradient was stored; otherwise item k of the list is a Grid built from component k of the
+   LAST axis of the stored gradient, k = 0 .. ndim-1 in increasing order, on the traveltime grid's own spacings and origin *)
+Theorem gen_gradient_2d :
+  ApiGen.gradient_2d_guard = ("self._gradient is None", "ValueError")
+  /\ ApiGen.gradient_2d_ctor = "Grid2D"
+  /\ ApiGen.gradient_2d_index = ApiGen.arange 2
+  /\ ApiGen.gradient_2d_axis = (2, 3)
+  /\ ApiGen.gradient_2d_items
+     = [[("grid", "self._gradient[:, :, 0]"); ("gridsize", "self._gridsize"); ("origin", "self._origin")];
+        [("grid", "self._gradient[:, :, 1]"); ("gridsize", "self._gridsize"); ("origin", "self._origin")]]
+  /\ ApiGen.grid_2d_init = ("(self, *args, **kwargs)", "super().__init__(*args, **kwargs)").
+Proof. repeat split; reflexivity. Qed.
+Theorem gen_gradient_3d :
+  ApiGen.gradient_3d_guard = ("self._gradient is None", "ValueError")
+  /\ ApiGen.gradient_3d_ctor = "Grid3D"
+  /\ ApiGen.gradient_3d_index = ApiGen.arange 3
+  /\ ApiGen.gradient_3d_axis = (3, 4)
+  /\ ApiGen.gradient_3d_items
+     = [[("grid", "self._gradient[:, :, :, 0]"); ("gridsize", "self._gridsize"); ("origin", "self._origin")];
+        [("grid", "self._gradient[:, :, :, 1]"); ("gridsize", "self._gridsize"); ("origin", "self._origin")];
+        [("grid", "self._gradient[:, :, :, 2]"); ("gridsize", "self._gridsize"); ("origin", "self._origin")]]
+  /\ ApiGen.grid_3d_init = ("(self, *args, **kwargs)", "super().__init__(*args, **kwargs)").
+Proof. repeat split; reflexivity. Qed.
+(* every item passes (gridsize, origin) on unchanged, and item k of the list is component k *)
+Theorem gen_gradient_items_meta :
+  Forall (fun it => tl it = [("gridsize", "self._gridsize"); ("origin", "self._origin")])
+         (ApiGen.gradient_2d_items ++ ApiGen.gradient_3d_items)
+  /\ length ApiGen.gradient_2d_items = 2%nat /\ length ApiGen.gradient_3d_items = 3%nat.
+Proof. split; [repeat constructor | split; reflexivity]. Qed.
+
+(* ------------------------------------------------------------------ 7. constructors *)
+(* BaseTraveltime stores its three arguments as they are; its only property is an alias; the remaining BaseGrid members
+   only read the stored array *)
+Theorem gen_basetraveltime_storage :
+  ApiGen.basetraveltime_init = [("_source", "source"); ("_gradient", "gradient"); ("_vzero", "vzero")]
+  /\ ApiGen.basetraveltime_props = [("source", "self._source")]
+  /\ ApiGen.basegrid_other = [("__getitem__(islice)", "self._grid[islice]"); ("size", "self._grid.size");
+                              ("ndim", "self._grid.ndim")].
+Proof. repeat split; reflexivity. Qed.
+(* TraveltimeGrid2D/3D(grid, gridsize, origin, source, gradient, vzero): every keyword goes to the attribute of the same
+   name; origin, source and (when present) gradient are converted to float64 arrays, grid and gridsize by BaseGrid *)
+Theorem gen_ttinit_2d :
+  ApiGen.ttinit_2d_params = ["grid"; "gridsize"; "origin"; "source"; "gradient"; "vzero"]
+  /\ ApiGen.ttinit_2d_super
+     = [("grid", "grid"); ("gridsize", "gridsize"); ("origin", "np.asarray(origin, dtype=np.float64)");
+        ("source", "np.asarray(source, dtype=np.float64)");
+        ("gradient", "np.asarray(gradient, dtype=np.float64) if gradient is not None else None"); ("vzero", "vzero")]
+  /\ ApiGen.ttinit_2d_stored
+     = [("_grid", "np.asarray(grid, dtype=np.float64)"); ("_gridsize", "tuple((float(x) for x in gridsize))");
+        ("_origin", "np.asarray(np.asarray(origin, dtype=np.float64), dtype=np.float64)");
+        ("_source", "np.asarray(source, dtype=np.float64)");
+        ("_gradient", "np.asarray(gradient, dtype=np.float64) if gradient is not None else None");
+        ("_vzero", "vzero")].
+Proof. repeat split; reflexivity. Qed.
+Theorem gen_ttinit_3d :
+  ApiGen.ttinit_3d_params = ApiGen.ttinit_2d_params
+  /\ ApiGen.ttinit_3d_super = ApiGen.ttinit_2d_super
+  /\ ApiGen.ttinit_3d_stored = ApiGen.ttinit_2d_stored.
+Proof. repeat split; reflexivity. Qed.
+(* the result objects built by solve (gen_solve_*_result) name exactly the constructor's parameters *)
+Theorem gen_ttinit_matches_solve :
+  snd ApiGen.solve_2d_result_ctor = ApiGen.ttinit_2d_params /\ snd ApiGen.solve_3d_result_ctor = ApiGen.ttinit_3d_params.
+Proof. split; reflexivity. Qed.
+
+(* Eikonal2D/3D(grid, gridsize, origin=None): the only logic is the origin default *)
+Theorem gen_eikonal_init_2d :
+  ApiGen.eikonal_2d_init_params = ["grid"; "gridsize"; "origin=None"]
+  /\ ApiGen.eikonal_2d_init_super
+     = [("grid", "grid"); ("gridsize", "gridsize");
+        ("origin", "origin if origin is not None else np.zeros(2, dtype=np.float64)")]
+  /\ ApiGen.eikonal_2d_init_stored
+     = [("_grid", "np.asarray(grid, dtype=np.float64)"); ("_gridsize", "tuple((float(x) for x in gridsize))");
+        ("_origin", "np.asarray(origin if origin is not None else np.zeros(2, dtype=np.float64), dtype=np.float64)")].
+Proof. repeat split; reflexivity. Qed.
+Theorem gen_eikonal_init_3d :
+  ApiGen.eikonal_3d_init_params = ["grid"; "gridsize"; "origin=None"]
+  /\ ApiGen.eikonal_3d_init_super
+     = [("grid", "grid"); ("gridsize", "gridsize");
+        ("origin", "origin if origin is not None else np.zeros(3, dtype=np.float64)")]
+  /\ ApiGen.eikonal_3d_init_stored
+     = [("_grid", "np.asarray(grid, dtype=np.float64)"); ("_gridsize", "tuple((float(x) for x in gridsize))");
+        ("_origin", "np.asarray(origin if origin is not None else np.zeros(3, dtype=np.float64), dtype=np.float64)")].
+Proof. repeat split; reflexivity. Qed.
+
+Section Origin.
+Context {T : Type} {N : Num T}.
+Theorem gen_eikonal_origin_2d_eq (o : list T) :
+  ApiGen.eikonal_origin_2d (Some o) = o /\ ApiGen.eikonal_origin_2d (T:=T) None = [nofZ 0; nofZ 0].
+Proof. split; reflexivity. Qed.
+Theorem gen_eikonal_origin_3d_eq (o : list T) :
+  ApiGen.eikonal_origin_3d (Some o) = o /\ ApiGen.eikonal_origin_3d (T:=T) None = [nofZ 0; nofZ 0; nofZ 0].
+Proof. split; reflexivity. Qed.
+(* omitting the origin is the same as passing the zero vector *)
+Theorem gen_eikonal_origin_2d_default :
+  ApiGen.eikonal_origin_2d (T:=T) None = ApiGen.eikonal_origin_2d (Some [nofZ 0; nofZ 0]).
+Proof. reflexivity. Qed.
+Theorem gen_eikonal_origin_3d_default :
+  ApiGen.eikonal_origin_3d (T:=T) None = ApiGen.eikonal_origin_3d (Some [nofZ 0; nofZ 0; nofZ 0]).
+Proof. reflexivity. Qed.
+(* ... hence so is what solve hands to the kernel (in the hand model's terms) *)
+Theorem gen_solve_args_2d_default_origin (grid gridsize src : list T) nsweep rg :
+  ApiGen.solve_args_2d grid gridsize (ApiGen.eikonal_origin_2d None) src nsweep rg
+  = (Api.solve_args grid gridsize [nofZ 0; nofZ 0] src, nsweep, rg).
+Proof. rewrite gen_solve_args_2d_eq. reflexivity. Qed.
+Theorem gen_solve_args_3d_default_origin (grid gridsize src : list T) nsweep rg :
+  ApiGen.solve_args_3d grid gridsize (ApiGen.eikonal_origin_3d None) src nsweep rg
+  = (Api.solve_args grid gridsize [nofZ 0; nofZ 0; nofZ 0] src, nsweep, rg).
+Proof. rewrite gen_solve_args_3d_eq. reflexivity. Qed.
+End Origin.
+
 Print Assumptions gen_axis_node_2d_zaxis_eq.
 Print Assumptions gen_axis_node_2d_xaxis_eq.
 Print Assumptions gen_axis_node_3d_zaxis_eq.
@@ -344,3 +503,22 @@ Print Assumptions gen_solve_3d_call.
 Print Assumptions gen_solve_2d_result.
 Print Assumptions gen_solve_3d_result.
 Print Assumptions gen_resample_smooth_context.
+Print Assumptions gen_call_2d_wiring.
+Print Assumptions gen_call_3d_wiring.
+Print Assumptions gen_ttcall_2d_wiring.
+Print Assumptions gen_ttcall_3d_wiring.
+Print Assumptions gen_gradient_2d.
+Print Assumptions gen_gradient_3d.
+Print Assumptions gen_gradient_items_meta.
+Print Assumptions gen_basetraveltime_storage.
+Print Assumptions gen_ttinit_2d.
+Print Assumptions gen_ttinit_3d.
+Print Assumptions gen_ttinit_matches_solve.
+Print Assumptions gen_eikonal_init_2d.
+Print Assumptions gen_eikonal_init_3d.
+Print Assumptions gen_eikonal_origin_2d_eq.
+Print Assumptions gen_eikonal_origin_3d_eq.
+Print Assumptions gen_eikonal_origin_2d_default.
+Print Assumptions gen_eikonal_origin_3d_default.
+Print Assumptions gen_solve_args_2d_default_origin.
+Print Assumptions gen_solve_args_3d_default_origin.
